@@ -423,6 +423,21 @@ Proof. exact range_right_u_rev. Qed.
 (* the loops use [wrapf], which is [wrap] with a shortcut *)
 Theorem C13_wrapf_eq : forall w z, 0 < w -> wrapf w z = wrap w z.
 Proof. exact wrapf_eq. Qed.
+(* range.go after a549427 writes the break tests as !(i+step > i) and !(i-Abs(step) < i) (a float counter that
+   no longer moves must stop the loop too); on a signed or unsigned w-bit integer type these ARE the model's
+   tests i+step < i and i-Abs(step) > i, because a wrapped sum differs from i whenever step is a non-zero
+   value of the type (step = MinInt, where Abs(step) = step, included) *)
+Theorem C13_range_break_tests_int : forall w i step, 0 < w ->
+  - 2 ^ (w - 1) <= step < 2 ^ (w - 1) -> step <> 0 ->
+  (wrapf w (i + step) <? i) = negb (wrapf w (i + step) >? i) /\
+  (wrapf w (i - abs_w w step) >? i) = negb (wrapf w (i - abs_w w step) <? i).
+Proof. exact range_break_tests_int. Qed.
+Theorem C13_range_break_tests_uint : forall w i step, 0 < w -> 0 < step < 2 ^ w ->
+  ((i + step) mod 2 ^ w <? i) = negb ((i + step) mod 2 ^ w >? i) /\
+  ((i - step) mod 2 ^ w >? i) = negb ((i - step) mod 2 ^ w <? i).
+Proof. exact range_break_tests_uint. Qed.
+Print Assumptions C13_range_break_tests_int.
+Print Assumptions C13_range_break_tests_uint.
 Print Assumptions C13_range_int_eq.
 Print Assumptions C13_range_uint_eq.
 Print Assumptions C13_range_int_errors.
